@@ -102,6 +102,7 @@ pub fn run(sc: &Scenario, stats: &mut Stats) {
     stats.scenarios += 1;
     ev(json!({"ev":"reset","sid":sc.sid}));
     let mut version: u32 = 0;
+    let mut drops = 0u32;
     let mut tk_states: Vec<tk::State<u32, u32>> = vec![tk::State::new(0)];
     let mut sm_states: Vec<sm::State<u32, u32>> = vec![sm::State::new(0)];
     let mut tk_subs: Vec<Option<tk::Stream<u32>>> = (0..NSUBS).map(|_| None).collect();
@@ -142,8 +143,16 @@ pub fn run(sc: &Scenario, stats: &mut Stats) {
                 if tk_states.is_empty() {
                     continue;
                 }
-                tk_states.pop();
-                sm_states.pop();
+                // alternately the oldest handle (the one State::new returned, while clones live on) and the
+                // newest one
+                drops += 1;
+                if drops % 2 == 1 {
+                    tk_states.remove(0);
+                    sm_states.remove(0);
+                } else {
+                    tk_states.pop();
+                    sm_states.pop();
+                }
                 ev(json!({"ev":"drop_state","left":tk_states.len()}));
             }
             Op::Subscribe(s) => {
